@@ -7,7 +7,9 @@ AREA = "c04"
 LEAN_PROPS = "Litep2pVerif.Props.C04"
 THEOREMS = ["no_oob", "alloc_bound", "stream_roundtrip", "oversize_error", "malformed_len_error",
             "oversize_refused", "sink_stream", "flush_complete", "send_framed_complete",
-            "sink_eq_send_framed", "flush_delivers"]
+            "sink_eq_send_framed", "flush_delivers",
+            "tokio_uvi_roundtrip", "tokio_uvi_prefix_need_more", "tokio_uvi_max_rule", "tokio_uvi_alloc_bound",
+            "tokio_identity_roundtrip"]
 CONSTS = ["BACKPRESSURE_BOUNDARY", "SUBSTREAM_SIZE_VEC_LEN", "SUBSTREAM_INITIAL_READ_BUFFER"]
 _SUB = "src/substream/mod.rs"
 CONST_TABLE = [
@@ -25,7 +27,11 @@ MANIFEST = {
             "list and fragmentation, with Pending anywhere), oversize_error / malformed_len_error / oversize_refused, sink_stream "
             "(bytes handed to the carrier followed by the bytes still queued are the concatenated frames of the accepted "
             "messages, for every history and every flow-control script), flush_complete, send_framed_complete, "
-            "sink_eq_send_framed, flush_delivers (end to end). Tie: the real Substream on both ends of an in-memory yamux "
+            "sink_eq_send_framed, flush_delivers (end to end); and about the tokio_util codecs of src/codec/ (UnsignedVarint over "
+            "unsigned-varint's UviBytes, Identity): tokio_uvi_roundtrip (decode (encode x) = x, rest preserved), "
+            "tokio_uvi_prefix_need_more (every proper prefix of a frame answers None, then the remainder yields the item), "
+            "tokio_uvi_max_rule, tokio_uvi_alloc_bound (reserve requests and frames never exceed the declared maximum, in every "
+            "reachable state), tokio_identity_roundtrip. Tie: the real Substream on both ends of an in-memory yamux "
             "connection (256 KiB window, messages up to 1 MiB, writer polled only by writer operations) against the model in "
             "checker mode, plus a property-level oracle.",
     "note": "Trusted: Lean kernel; axioms propext/Classical.choice/Quot.sound; the hand-written models and their tie (sampled "
@@ -41,15 +47,26 @@ RULE = ("seeded cases: codec in Identity{1,10,1023,1024,1025,4096} / UnsignedVar
         "send_framed (background future), interleaved with reader polls, bursts of flushes without reads (flow-control stall), "
         "writer_stop after a completed flush, raw malformed/oversized/over-long length prefixes, polling after errors; run on "
         "the real Substream pair over in-memory yamux and on the Lean model (checker mode: the model must allow every "
-        "observation given the number of bytes the carrier accepted). non-trivial = at least one frame received and at least one "
+        "observation given the number of bytes the carrier accepted). `tu` cases: the real codec::UnsignedVarint (new / "
+        "with_max_size, max none/0/1/10/127/128/300/70000) and codec::Identity (1..1024) as tokio_util Encoder/Decoder: streams of "
+        "valid frames at the size boundaries, over-long / non-minimal / oversized / huge announced prefixes, fed in random "
+        "chunks and (one stream per run) cut at every offset; item lists through Encoder::encode; encode-then-decode with a "
+        "fresh codec at EVERY split point of the produced bytes (rt); the associated functions UnsignedVarint::encode/decode "
+        "and Identity::encode; peak heap per decode. non-trivial = at least one frame received and at least one "
         "of: stall (pending/notready), refusal, receiver error; distinct = distinct (ops, observations) transcripts by SHA-256")
 TRUSTED_BASE = ["Lean 4.33 kernel", "axioms: propext, Classical.choice, Quot.sound only",
                 "hand-written models Model/Substream/{Codec,Sink}.lean tied to substream/mod.rs by this correspondence run",
                 "adapter /repo/src/verif/c04.rs (quiescence detection by byte counters), harness, verif.py, checks/c04.py",
                 "yamux 0.13 + tokio duplex as the carrier: reliable, FIFO, accepts >= 1 byte of a non-empty buffer or returns Pending",
                 "unsigned-varint 0.8 encode!/decode! loops transcribed by hand (u64 `|`/`<<` as addition mod 2^64)",
-                "usize = u64 (64-bit target)"]
-ASSUMPTIONS = ["the carrier never returns Ok(0) for a non-empty write and delivers accepted bytes in order",
+                "usize = u64 (64-bit target)",
+                "hand-written model Model/Substream/TokioCodec.lean of unsigned-varint 0.8's UviBytes::{deserialise, serialise} "
+                "and of codec::Identity, tied by the `tu` ops of this run; bytes::BytesMut (split_to/reserve/advance) is a byte "
+                "list, its growth policy is outside the model (the oracle allows twice the declared maximum)"]
+ASSUMPTIONS = ["src/codec/{unsigned_varint,identity}.rs have no caller in the default-feature build (QUIC/WebRTC substreams and "
+               "tests only); they are public API and are driven directly. Identity::new(0) panics by contract (assert!) and is "
+               "outside the quantifier; UnsignedVarint::encode asserts len <= u32::MAX (not driven)",
+               "the carrier never returns Ok(0) for a non-empty write and delivers accepted bytes in order",
                "Identity(0) is outside the quantifier (a zero-length frame has no wire representation)",
                "UnsignedVarint(None): a peer can make the receiver allocate any announced size (no configured limit to check); "
                "the generator keeps announced sizes below 4 MiB there",
@@ -224,6 +241,199 @@ def gen_malformed(rng, arg):
     return ops
 
 
+# ---------------------------------------------------------------- the tokio_util codecs of src/codec/ (`tu` ops)
+UVI_DEFAULT_MAX = 128 * 1024 * 1024
+TU_MOD = 1000003
+
+
+def tu_hash(b):
+    h = 0
+    for x in b:
+        h = (h * 31 + x) % TU_MOD
+    return f"{len(b)}:{h}"
+
+
+def tu_item_bytes(s):
+    if s == "-":
+        return b""
+    if "*" in s:
+        n, f = s.split("*")
+        return bytes([int(f)]) * int(n)
+    return bytes.fromhex(s)
+
+
+def tu_item(rng, lens):
+    n = rng.choice(lens)
+    if n > 24 or rng.random() < 0.3:
+        return f"{n}*{rng.randrange(256)}"
+    return bytes(rng.randrange(256) for _ in range(n)).hex() or "-"
+
+
+def tu_chunks(rng, b):
+    cuts = sorted(rng.randrange(len(b) + 1) for _ in range(rng.choice([0, 1, 2, 4]))) if b else []
+    out, last = [], 0
+    for c in cuts + [len(b)]:
+        out.append(b[last:c].hex() or "-")
+        last = c
+    return ",".join(out)
+
+
+def gen_tu_op(rng):
+    r = rng.random()
+    if r < 0.55:
+        kind = rng.choice(["uvi", "uvi", "uviw"])
+        m = rng.choice([0, 1, 10, 127, 128, 300, 70000] + ([] if kind == "uviw" else ["none"]))
+        mm = UVI_DEFAULT_MAX if m == "none" else m
+        lens = [0, 1, 2, mm, mm, mm + 1, max(mm - 1, 0), 127, 128] if mm <= 70000 else [0, 1, 5, 127, 128, 129, 300, 20000]
+        lens = [x for x in lens if x <= 80000]
+        op = rng.choice(["dec", "dec", "dec", "enc", "rt", "rt"])
+        if op == "dec":
+            stream = b""
+            for _ in range(rng.choice([1, 2, 3, 5])):
+                q = rng.random()
+                if q < 0.7:
+                    n = rng.choice([x for x in lens if x <= 2000] or [0])
+                    stream += varint(n) + bytes(rng.randrange(256) for _ in range(n))
+                elif q < 0.8:
+                    stream += rng.choice([b"\x80" * 9 + b"\x01", b"\x80" * 10 + b"\x01", b"\xff" * 10, b"\x80\x00", b"\x81\x80\x00",
+                                          b"\xff" * 9 + b"\x7f", b"\xff" * 9 + b"\x01"]) + b"\x01\x02"
+                elif q < 0.9:
+                    stream += varint(rng.choice([mm + 1, mm + 2, 2 * mm + 7, 2 ** 32, 2 ** 63 + 1])) + b"\x01\x02\x03"
+                else:
+                    # announced but not (yet) delivered: the decoder reserves the announced size
+                    n = rng.choice([5, 300, 70000, 5 * 1024 * 1024, UVI_DEFAULT_MAX - 1, UVI_DEFAULT_MAX])
+                    stream += varint(n) + b"\x07" * min(n, 3)
+            return f"tu {kind} {m} dec {tu_chunks(rng, stream)}"
+        items = ",".join(tu_item(rng, lens) for _ in range(rng.choice([1, 2, 3, 6])))
+        if op == "rt":
+            items = ",".join(tu_item(rng, [x for x in lens if x <= 150] or [0]) for _ in range(rng.choice([1, 2, 4])))
+        return f"tu {kind} {m} {op} {items}"
+    if r < 0.65:
+        if rng.random() < 0.5:
+            return f"tu uvi - henc {tu_item(rng, [0, 1, 127, 128, 300, 16384, 70000])}"
+        n = rng.choice([0, 1, 5, 127, 128, 300])
+        b = varint(n) + bytes(rng.randrange(256) for _ in range(n)) + bytes(rng.randrange(256) for _ in range(rng.choice([0, 0, 3])))
+        if rng.random() < 0.4:
+            b = b[:rng.randrange(len(b) + 1)]
+        if rng.random() < 0.15:
+            b = rng.choice([b"\x80" * 10 + b"\x01", b"\x80\x00", varint(UVI_DEFAULT_MAX + 1), varint(UVI_DEFAULT_MAX), b""])
+        return f"tu uvi - hdec {b.hex() or '-'}"
+    n = rng.choice([1, 2, 3, 32, 48, 1024])
+    lens = [n, n, n, n - 1, n + 1, 0, 1, 2 * n]
+    op = rng.choice(["dec", "dec", "enc", "rt", "rt", "henc"])
+    if op == "henc":
+        return f"tu id - henc {tu_item(rng, [0, 1, 5, 300])}"
+    if op == "dec":
+        total = rng.choice([0, 1, n - 1, n, n + 1, 2 * n, 3 * n + 1])
+        return f"tu id {n} dec {tu_chunks(rng, bytes(rng.randrange(256) for _ in range(min(total, 3000))))}"
+    return f"tu id {n} {op} " + ",".join(tu_item(rng, lens) for _ in range(rng.choice([1, 2, 4])))
+
+
+def gen_tu_case(rng):
+    return [gen_tu_op(rng) for _ in range(12)]
+
+
+def tu_every_split(rng):
+    """One stream of valid frames delivered in two chunks, cut at every offset."""
+    msgs = [bytes(rng.randrange(256) for _ in range(n)) for n in (0, 3, 130, 1)]
+    stream = b"".join(varint(len(m)) + m for m in msgs)
+    return [f"tu uvi 300 dec {stream[:k].hex() or '-'},{stream[k:].hex() or '-'}" for k in range(len(stream) + 1)]
+
+
+def tu_reference_frames(chunks, mm):
+    """What a correct unsigned-varint frame decoder returns per chunk, for streams made of canonical frames within the
+    limit (None: no opinion). A length prefix is consumed as soon as it is complete."""
+    buf, res, pending = b"", [], None
+    for c in chunks:
+        buf += c
+        while True:
+            if pending is None:
+                n, shift, k = 0, 0, 0
+                while k < len(buf) and buf[k] >= 0x80 and k < 9:
+                    n |= (buf[k] & 0x7F) << shift
+                    shift += 7
+                    k += 1
+                if k >= len(buf):
+                    res.append("n")
+                    break
+                if buf[k] >= 0x80 or (buf[k] == 0 and k > 0):
+                    return None
+                n |= buf[k] << shift
+                if n > mm or n >= 2 ** 64:
+                    return None
+                pending, buf = n, buf[k + 1:]
+            if len(buf) < pending:
+                res.append("n")
+                break
+            res.append("f" + tu_hash(buf[:pending]))
+            buf, pending = buf[pending:], None
+    return res, len(buf)
+
+
+def oracle_tu(i, op, o, bad):
+    def v(kind, msg):
+        bad.append({"kind": kind, "msg": msg, "step": i, "op": op[:300], "out": o[:300]})
+    t = op.split()
+    if len(t) != 5 or o in ("bad-op", "skipped"):
+        return
+    kind, arg, what, data = t[1:]
+    f = dict(x.split("=", 1) for x in o.split() if "=" in x)
+    if kind in ("uvi", "uviw"):
+        mm = UVI_DEFAULT_MAX if arg in ("none", "-") else int(arg)
+        fits = lambda b: len(b) <= mm
+        frame = lambda b: varint(len(b)) + b
+    else:
+        mm = None if arg == "-" else int(arg)
+        fits = lambda b: len(b) == mm and len(b) > 0
+        frame = lambda b: b
+    if what in ("enc", "rt"):
+        items = [tu_item_bytes(x) for x in data.split(",")]
+        got = f.get("r", "").split(",")
+        want = ["ok" if fits(b) else "e" for b in items]
+        if [("ok" if g == "ok" else "e") for g in got] != want:
+            v("sender-limit", f"items of sizes {[len(b) for b in items]} under limit {mm}: encoder answered {got}")
+            return
+        acc = [b for b in items if fits(b)]
+        if f.get("dst") != tu_hash(b"".join(frame(b) for b in acc)):
+            v("wire-format", f"encoded bytes {f.get('dst')} are not the concatenated frames of the accepted items")
+        if what == "rt":
+            if f.get("dec", "") != ",".join("f" + tu_hash(b) for b in acc) or f.get("rem") != "0" or f.get("all") != "1":
+                v("roundtrip", f"accepted {[tu_hash(b) for b in acc]}, decoded {f.get('dec')} rem={f.get('rem')} all={f.get('all')}")
+    elif what == "dec":
+        chunks = [tu_item_bytes(x) for x in data.split(",")]
+        total = sum(len(c) for c in chunks)
+        alloc = int(f.get("alloc", 0))
+        limit = 2 * (total + (mm if kind != "id" else 0)) + 4096
+        if alloc > limit:
+            v("over-allocation", f"decoding {total} bytes under limit {mm} allocated {alloc} bytes")
+        if kind != "id":
+            ref = tu_reference_frames(chunks, mm)
+            if ref is not None and (f.get("r", "").split(","), f.get("rem")) != (ref[0], str(ref[1])):
+                v("roundtrip", f"a stream of valid frames decodes to {f.get('r')} rem={f.get('rem')}, expected {ref}")
+        elif mm:
+            buf = b"".join(chunks)
+            frames = ["f" + tu_hash(buf[k:k + mm]) for k in range(0, len(buf) - mm + 1, mm)]
+            if [x for x in f.get("r", "").split(",") if x != "n"] != frames or f.get("rem") != str(len(buf) % mm):
+                v("roundtrip", f"fixed-size frames: got {f.get('r')} rem={f.get('rem')}, expected {frames}")
+    elif what == "henc":
+        b = tu_item_bytes(data)
+        if o != "ok " + tu_hash(frame(b) if kind != "id" else b):
+            v("wire-format", f"helper encode of {len(b)} bytes answered {o}")
+    elif what == "hdec":
+        ref = tu_reference_frames([tu_item_bytes(data)], mm)
+        if ref is not None and ref[0][0] != "n":
+            first = ref[0][0]
+            if not o.startswith("ok " + first + " "):
+                v("roundtrip", f"helper decode answered {o}, expected {first}")
+
+
+def normalize(line):
+    import re
+    if line.startswith("panic"):
+        return "panic"
+    return re.sub(r" alloc=\d+", "", line)
+
+
 def corpus():
     return [
         # §8-b: a fixed frame size above the initial read buffer
@@ -249,6 +459,11 @@ def gen_cases(rng, tier):
     n = {"quick": 300, "thorough": 20000, "search": 2000}[tier]
     for _ in range(n):
         yield gen_case(rng)
+    # the tokio_util codecs of src/codec/ (stateless ops)
+    if tier != "search":
+        yield tu_every_split(rng)
+    for _ in range({"quick": 40, "thorough": 1500, "search": 150}[tier]):
+        yield gen_tu_case(rng)
 
 
 def mutate_case(rng, case, n):
@@ -305,6 +520,14 @@ def oracle(case, out):
         bad.append({"kind": kind, "msg": msg, "step": i, "op": case[i], "out": out[i] if i < len(out) else None})
 
     if not case:
+        return bad
+    for i, op in enumerate(case):
+        if op.startswith("tu ") and i < len(out):
+            if out[i].startswith("panic"):
+                v("panic", f"panic in {op[:60]}: {out[i]}", i)
+                return bad
+            oracle_tu(i, op, out[i], bad)
+    if case[0].startswith("tu "):
         return bad
     codec = parse_codec(case[0])
     if codec is None:
@@ -391,6 +614,12 @@ def stats(case, out, acc):
         bump(acc, f"codec:{c[0]}:{c[1]}")
     for op, o in zip(case, out):
         t = op.split()
+        if t[0] == "tu" and len(t) == 5:
+            bump(acc, f"op:tu:{t[1]}:{t[3]}")
+            for cls in ("f", "n", "e:"):
+                if any(x.startswith(cls) for x in o.split(" ")[0][2:].split(",")):
+                    bump(acc, f"tu:{t[1]}:{t[3]}:{cls}")
+            continue
         key = t[0] + (":" + t[1] if t[0] == "send" else "")
         bump(acc, "op:" + key)
         w = o.split()
@@ -404,6 +633,8 @@ def stats(case, out, acc):
 
 
 def nontrivial(case, out):
+    if case and case[0].startswith("tu "):
+        return any("f" in o.split("rem=")[0] and "=" in o for o in out) and any("e:" in o or "n" in o for o in out)
     heads = [o.split()[0] for o in out if o]
     frame = "frame" in heads
     other = any(h in ("pending", "notready", "refused", "err") for h in heads[1:])
